@@ -596,6 +596,9 @@ m('M30f', 'C11', 'C11.run-resolves-once', 'thread_pool.h',
 m('M31h', 'C12', 'C12.destructor-stops-worker', 'scheduler.h',
   """            _glob_state->_stp.request_stop();
             _glob_state->_fut.wait();""", """            _glob_state->_stp.request_stop();""", 'destructor does not wait for the worker')
+m('M31i', 'C12', 'C12.cancel-finds-live-entry', 'scheduler.h',
+  "            return x._ident == id && x._p;",
+  "            return x._ident == id;", 'revert of F17: the search matches cancelled entries too')
 m('M40f', 'C16', 'C16.end-of-stream', 'publisher.h',
   "            if (l._kicked || l._pos == _pos) return {};", "            if (l._pos == _pos) return {};", 'kicked subscriber keeps reading')
 m('M45g', 'C19', 'C19.buffer-large-enough', 'coro_storage.h',
